@@ -32,6 +32,15 @@ Check C16_cut_media : forall b0 ls t p,
 Print Assumptions C16_cut_media.
 
 (* a master text that ends in an EXT-X-STREAM-INF line (in tag position) is rejected *)
+(* ... and not only when the segment tag is the last line: an item stays pending across every line that is not its URI line
+   (playlist-level tags, unknown tags, comments, further segment tags), so a text cut anywhere inside an item is rejected *)
+Theorem C16_cut_pending : forall b0 ls t rest p,
+  is_segment_tag t = true -> Forall not_uri rest -> parse_items b0 (ls ++ Ok (LTag t) :: rest) = Ok p -> False.
+Proof. exact pending_item_rejected. Qed.
+Check C16_cut_pending : forall b0 ls t rest p,
+  is_segment_tag t = true -> Forall not_uri rest -> parse_items b0 (ls ++ Ok (LTag t) :: rest) = Ok p -> False.
+Print Assumptions C16_cut_pending.
+
 Theorem C16_cut_master : forall ls, open_streaminf ls ->
   forall s s', mrun_lines s (items ls) = Ok s' -> False.
 Proof. exact open_streaminf_rejected. Qed.
